@@ -46,6 +46,13 @@ func (c *CallInfo) T(i int) *Term {
 				return v
 			}
 		}
+		// raw bytes read from the store (e.g. an address stored as is)
+		if ev, ok := c.Args[i].(*EncVal); ok && ev.Enc == "raw" && ev.V != nil && ev.V.Sort == SBytes {
+			if ev.Nil == nil || ev.Nil.IsFalse() {
+				return ev.V
+			}
+			return Ite(ev.Nil, BytesNil, ev.V)
+		}
 	}
 	return t
 }
@@ -222,6 +229,17 @@ func (x *Exec) callFunction(f *Frame, st *State, fn *ssa.Function, args []Val, b
 // unknownCall: a call we have no semantics for. If it can touch tracked state (receives the context, a
 // keeper, a store or a pointer to tracked memory) the whole world and the pointed-to memory are havocked.
 func (x *Exec) unknownCall(f *Frame, st *State, info *CallInfo) []callCont {
+	// generated protobuf getter of a dependency type: (*T).GetX() on a non-nil receiver returns field X
+	if ln := lastName(info.Name); strings.HasPrefix(ln, "Get") && len(info.Args) == 1 && strings.Contains(info.Name, "gogoproto/types.") {
+		if pv, ok := info.Args[0].(*PtrVal); ok {
+			if cur, ok := x.load(st, pv).(*Term); ok && cur.Sort.Kind == KData {
+				if i := cur.Sort.FieldIndex(ln[3:]); i >= 0 {
+					x.assumed["protobuf getter "+info.Name] = true
+					return single(st, SelField(cur, i))
+				}
+			}
+		}
+	}
 	touches := false
 	for _, a := range info.Args {
 		switch v := a.(type) {
